@@ -695,3 +695,427 @@ Proof.
     rewrite (local_print _ loc Hl). cbn [bind].
     unfold ext_after. fold e0. destruct pre as [[w n]|]; reflexivity.
 Qed.
+
+(* ---------- invariants of what Parse stores ---------- *)
+Definition int64 (z : Z) : Prop := - two63 <= z < two63.
+
+Lemma to_int64_range z : int64 (to_int64 z).
+Proof.
+  unfold int64, to_int64, two63. pose proof (Z.mod_pos_bound z 18446744073709551616 ltac:(lia)).
+  destruct (Z.ltb_spec (z mod 18446744073709551616) 9223372036854775808); lia.
+Qed.
+
+Lemma pep_number_int64 s : int64 (fst (pep_number s)).
+Proof.
+  unfold pep_number. destruct (num_run (allow_sep s)) as [[|c run] rest]; cbn [fst].
+  - unfold int64, two63. lia.
+  - apply to_int64_range.
+Qed.
+
+Record wf_x (x : pep440) : Prop := {
+  wx_epoch : 0 <= p_epoch x <= 255;
+  wx_pre : (p_pre x = [] /\ p_prenum x = 0) \/
+           ((p_pre x = [97%N] \/ p_pre x = [98%N] \/ p_pre x = [114; 99]%N) /\ int64 (p_prenum x));
+  wx_post : (p_post x = false -> p_postnum x = 0) /\ int64 (p_postnum x);
+  wx_dev : (p_dev x = false -> p_devnum x = 0) /\ int64 (p_devnum x);
+  wx_local : p_local x = [] \/ local_ok (p_local x)
+}.
+
+Definition wf_e (e : option pep440) : Prop := wf_x (make_ext e).
+
+Lemma int64_0 : int64 0.
+Proof. unfold int64, two63. lia. Qed.
+
+Lemma wf_zero : wf_x zero_pep440.
+Proof. split; simpl; auto using int64_0; try lia. Qed.
+
+Lemma parse_epoch_wf s e r : parse_epoch s = Ok (e, r) -> wf_e e.
+Proof.
+  unfold parse_epoch. destruct (split_at_byte 33 s) as [[[|c b] a]|]; try (intros H; inversion H; apply wf_zero).
+  destruct (digits_val (c :: b) 0) as [n|] eqn:Dv; [|discriminate].
+  destruct (Z.leb_spec n 255) as [Le|Le]; [|discriminate]. intros E; inversion E; subst.
+  destruct (digits_val_some _ _ _ Dv) as [_ ->].
+  pose proof (sp_int_nonneg (c :: b)) as Nn. unfold sp_int in Nn.
+  split; simpl; auto using int64_0; try lia.
+Qed.
+
+Lemma find_pre_canon i t c : find_pre pep440_pre_strings i = Some (t, c) ->
+  c = [97%N] \/ c = [98%N] \/ c = [114; 99]%N.
+Proof.
+  unfold pep440_pre_strings. cbn [find_pre].
+  repeat match goal with |- context [has_ascii_prefix i ?w] => destruct (has_ascii_prefix i w) end;
+    intros H; inversion H; auto.
+Qed.
+
+Lemma parse_pre_wf e s e1 vp r : wf_e e -> parse_pre e s = (e1, vp, r) -> wf_e e1.
+Proof.
+  intros W. unfold parse_pre. destruct s as [|c0 t]; [intros H; inversion H; subst; auto|].
+  destruct (find_pre pep440_pre_strings (allow_sep (c0 :: t))) as [[text can]|] eqn:F;
+    [|intros H; inversion H; subst; auto].
+  pose proof (pep_number_int64 (skipn (length text) (allow_sep (c0 :: t)))) as I.
+  destruct (pep_number (skipn (length text) (allow_sep (c0 :: t)))) as [n rest]. cbn [fst] in I.
+  intros H; inversion H; subst. destruct W. unfold wf_e. cbn [make_ext].
+  split; simpl; auto. right. split; auto. eapply find_pre_canon; eauto.
+Qed.
+
+Lemma parse_post_wf e s e2 r : wf_e e -> parse_post e s = (e2, r) -> wf_e e2.
+Proof.
+  intros W. unfold parse_post. destruct s as [|c0 t]; [intros H; inversion H; subst; auto|].
+  match goal with |- (if ?b then _ else _) = _ -> _ => destruct b end; [intros H; inversion H; subst; auto|].
+  match goal with |- (let '(n, rest) := pep_number ?x in _) = _ -> _ =>
+    pose proof (pep_number_int64 x) as I; destruct (pep_number x) as [n rest] end.
+  cbn [fst] in I. intros H; inversion H; subst. destruct W. unfold wf_e. cbn [make_ext].
+  split; simpl; auto. split; auto. discriminate.
+Qed.
+
+Lemma parse_dev_wf e s e3 r : wf_e e -> parse_dev e s = (e3, r) -> wf_e e3.
+Proof.
+  intros W. unfold parse_dev. destruct s as [|c0 t]; [intros H; inversion H; subst; auto|].
+  destruct (has_ascii_prefix (allow_sep (c0 :: t)) Pep440Parse.s_dev); [|intros H; inversion H; subst; auto].
+  pose proof (pep_number_int64 (skipn 3 (allow_sep (c0 :: t)))) as I.
+  destruct (pep_number (skipn 3 (allow_sep (c0 :: t)))) as [n rest]. cbn [fst] in I.
+  intros H; inversion H; subst. destruct W. unfold wf_e. cbn [make_ext].
+  split; simpl; auto. split; auto. discriminate.
+Qed.
+
+Lemma last_map {A B} (f : A -> B) l d : l <> [] -> last (map f l) (f d) = f (last l d).
+Proof. induction l as [|x l IH]; [congruence|]. intros _. destruct l as [|y l']; [reflexivity|].
+  change (last (map f (x :: y :: l')) (f d)) with (last (map f (y :: l')) (f d)).
+  change (last (x :: y :: l') d) with (last (y :: l') d). apply IH. discriminate. Qed.
+
+Lemma alnum_dash c : is_alnum c = true -> dash_to_dot c = c.
+Proof.
+  unfold is_alnum, is_digit, is_alpha, dash_to_dot. intros H.
+  destruct (N.eqb_spec c 45), (N.eqb_spec c 95); subst; try discriminate; reflexivity.
+Qed.
+
+Lemma local_char_mapped c : local_char c = true -> is_alnum (dash_to_dot c) || N.eqb (dash_to_dot c) 46 = true.
+Proof.
+  unfold local_char, dash_to_dot.
+  destruct (N.eqb_spec c 46), (N.eqb_spec c 45), (N.eqb_spec c 95); subst; simpl; auto.
+  intros H. rewrite H. reflexivity.
+Qed.
+
+Lemma parse_local_wf e s e4 r : wf_e e -> parse_local e s = Ok (e4, r) -> wf_e e4.
+Proof.
+  intros W. unfold parse_local.
+  destruct s as [|c0 [|c1 t]]; [intros H; inversion H; subst; auto | intros H; inversion H; subst; auto |].
+  destruct (negb (N.eqb c0 43)); [intros H; inversion H; subst; auto|].
+  destruct (forallb local_char (c1 :: t)) eqn:F; [|discriminate]. cbn [negb].
+  destruct (is_alnum c1) eqn:A1; [|discriminate].
+  destruct (is_alnum (last (c1 :: t) 0%N)) eqn:AL; [|discriminate]. cbn [negb orb].
+  intros H; inversion H; subst. destruct W. unfold wf_e. cbn [make_ext].
+  split; simpl; auto. right. split; [discriminate|]. split; [|split].
+  - change (dash_to_dot c1 :: map dash_to_dot t) with (map dash_to_dot (c1 :: t)).
+    rewrite forallb_forall in F. apply forallb_forall. intros x Hx. apply in_map_iff in Hx.
+    destruct Hx as (y & <- & Hy). apply local_char_mapped. auto.
+  - cbn [hd]. rewrite (alnum_dash c1 A1). exact A1.
+  - change (dash_to_dot c1 :: map dash_to_dot t) with (map dash_to_dot (c1 :: t)).
+    change 0%N with (dash_to_dot 0%N). rewrite last_map by discriminate. rewrite (alnum_dash _ AL). exact AL.
+Qed.
+
+(* release numbers *)
+Lemma parse_num_valid s n : parse_num s = Some n -> 0 <= n < infinity.
+Proof.
+  unfold parse_num. destruct s as [|c [|c' t]].
+  - destruct (parse_int [] 64) as [z|]; [|discriminate].
+    destruct (Z.ltb_spec z 0) as [L|L]; [discriminate|]. destruct (Z.leb_spec infinity z) as [M|M]; [discriminate|].
+    intros E; inversion E; subst; lia.
+  - destruct (is_digit c) eqn:D; [|discriminate]. intros E; inversion E; subst.
+    unfold is_digit in D. apply andb_true_iff in D. destruct D as [H1 H2]. apply N.leb_le in H1, H2.
+    unfold infinity. lia.
+  - destruct (parse_int (c :: c' :: t) 64) as [z|]; [|discriminate].
+    destruct (Z.ltb_spec z 0) as [L|L]; [discriminate|]. destruct (Z.leb_spec infinity z) as [M|M]; [discriminate|].
+    intros E; inversion E; subst; lia.
+Qed.
+
+Lemma seg_value_valid seg first x : seg_value seg first = Some x ->
+  valid_num x /\ (first = true -> x <> wildcard).
+Proof.
+  unfold seg_value. destruct (bytes_eqb seg s_inf).
+  - intros H; inversion H; subst. split; [right; left; reflexivity | intros _; discriminate].
+  - destruct (bytes_eqb seg [42%N]).
+    + destruct first; [discriminate|]. intros H; inversion H; subst. split; [left; reflexivity | discriminate].
+    + intros H. apply parse_num_valid in H. split; [right; right; auto | intros _; unfold wildcard; lia].
+Qed.
+
+Lemma release_valid f : forall s first l r, release f s first = Ok (l, r) ->
+  Forall valid_num l /\ (first = true -> match l with x :: _ => x <> wildcard | [] => True end).
+Proof.
+  induction f as [|f IH]; intros s first l r H; [discriminate|].
+  cbn [release] in H. destruct s as [|c0 s0]; [inversion H; subst; split; auto|].
+  destruct (segment (c0 :: s0)) as [seg rest]. destruct seg as [|g0 gs]; [inversion H; subst; split; auto|].
+  destruct (seg_value (g0 :: gs) first) as [x|] eqn:Sv; [|discriminate].
+  destruct (seg_value_valid _ _ _ Sv) as [Vx Fx].
+  destruct rest as [|c rest']; [inversion H; subst; split; auto|].
+  destruct (N.eqb c 46); [|inversion H; subst; split; auto].
+  destruct rest' as [|c' r'']; [discriminate|].
+  destruct (release f (c' :: r'') false) as [[l' rr]| | |] eqn:R'; cbn [bind fst snd] in H; try discriminate.
+  inversion H; subst. destruct (IH _ _ _ _ R') as [Vl _]. split; auto.
+Qed.
+
+(* ---------- printNums ---------- *)
+Lemma get_num_app pre x t : get_num (pre ++ x :: t) (length pre) = x.
+Proof. induction pre as [|y pre IH]; simpl; auto. Qed.
+
+Lemma print_nums_from_pn suf : forall pre n,
+  suf <> [] -> wild_only_last suf = true ->
+  (n = length suf \/ ((length suf <= n)%nat /\ last_is_wildcard suf = true)) ->
+  print_nums_from (pre ++ suf) (length pre) n =
+  (match pre with [] => [] | _ => [46%N] end) ++ pn suf.
+Proof.
+  induction suf as [|x t IH]; intros pre n Hne W Hn; [congruence|].
+  destruct n as [|n]; [exfalso; destruct Hn as [Hn|[Hn _]]; simpl in Hn; lia|].
+  cbn [print_nums_from]. rewrite get_num_app.
+  assert (Sep : match length pre with O => [] | S _ => [46%N] end = match pre with [] => [] | _ => [46%N] end)
+    by (destruct pre; reflexivity).
+  rewrite Sep. f_equal.
+  destruct t as [|y t'].
+  - rewrite pn_one. destruct (Z.eqb_spec x wildcard) as [->|Hx]; [reflexivity|].
+    assert (n = O).
+    { destruct Hn as [Hn|[_ Hn]]; [simpl in Hn; lia|]. simpl in Hn. apply Z.eqb_eq in Hn. congruence. }
+    subst n. cbn [print_nums_from]. unfold value_string. rewrite (proj2 (Z.eqb_neq x wildcard) Hx).
+    rewrite app_nil_r. reflexivity.
+  - rewrite pn_cons2. cbn [wild_only_last] in W. apply andb_true_iff in W. destruct W as [Wx Wt].
+    apply negb_true_iff in Wx. rewrite Wx. f_equal.
+    replace (pre ++ x :: y :: t') with ((pre ++ [x]) ++ y :: t') by (rewrite <- app_assoc; reflexivity).
+    replace (S (length pre)) with (length (pre ++ [x])) by (rewrite app_length; simpl; lia).
+    rewrite (IH (pre ++ [x]) n ltac:(discriminate) Wt).
+    + destruct (pre ++ [x]) eqn:E; [apply app_eq_nil in E; destruct E; discriminate | reflexivity].
+    + destruct Hn as [Hn|[Hn Hl]]; [left; simpl in *; lia | right; split; [simpl in *; lia | exact Hl]].
+Qed.
+
+Lemma print_nums_pn nums : nums <> [] -> wild_only_last nums = true ->
+  ((3 <= length nums)%nat \/ last_is_wildcard nums = true) -> print_nums nums = pn nums.
+Proof.
+  intros Hne W H. unfold print_nums, at_least3.
+  change (print_nums_from nums 0 (Nat.max 3 (length nums)))
+    with (print_nums_from ([] ++ nums) (length (@nil Z)) (Nat.max 3 (length nums))).
+  rewrite (print_nums_from_pn nums [] (Nat.max 3 (length nums)) Hne W); [reflexivity|].
+  destruct H as [H|H]; [left; lia | right; split; [lia | exact H]].
+Qed.
+
+Lemma pad3_shape l : l <> [] -> (3 <= length (pad3 l))%nat \/ last_is_wildcard (pad3 l) = true.
+Proof.
+  intros Hne. unfold pad3. destruct (last_is_wildcard l) eqn:E; [right; exact E|].
+  left. rewrite app_length, repeat_length. lia.
+Qed.
+
+Lemma last_is_wildcard_app_zeros l k : last_is_wildcard l = false -> last_is_wildcard (l ++ repeat 0 k) = false.
+Proof.
+  intros H. induction l as [|x l IH].
+  - simpl. induction k as [|k IHk]; [reflexivity|]. simpl. destruct (repeat 0 k) eqn:E; [reflexivity | exact IHk].
+  - destruct l as [|y l'].
+    + simpl in *. destruct k; [exact H|]. simpl. clear IH.
+      induction k as [|k IHk]; [reflexivity|]. simpl. destruct (repeat 0 k) eqn:E; [reflexivity | exact IHk].
+    + change ((x :: y :: l') ++ repeat 0 k) with (x :: ((y :: l') ++ repeat 0 k)).
+      change (last_is_wildcard (x :: (y :: l') ++ repeat 0 k)) with (last_is_wildcard ((y :: l') ++ repeat 0 k)).
+      apply IH. exact H.
+Qed.
+
+Lemma pad3_idem l : l <> [] -> pad3 (pad3 l) = pad3 l.
+Proof.
+  intros Hne. destruct (last_is_wildcard l) eqn:E.
+  - assert (P : pad3 l = l) by (unfold pad3; rewrite E; reflexivity). rewrite P. exact P.
+  - assert (P : pad3 l = l ++ repeat 0 (3 - length l)) by (unfold pad3; rewrite E; reflexivity).
+    rewrite P. unfold pad3. rewrite (last_is_wildcard_app_zeros l _ E).
+    rewrite app_length, repeat_length.
+    replace (3 - (length l + (3 - length l)))%nat with O by lia. apply app_nil_r.
+Qed.
+
+Lemma pad3_valid l : Forall valid_num l -> Forall valid_num (pad3 l).
+Proof.
+  intros V. unfold pad3. destruct (last_is_wildcard l); auto.
+  apply Forall_app. split; auto. apply Forall_forall. intros x Hx. apply repeat_spec in Hx. subst.
+  right. right. unfold infinity. lia.
+Qed.
+
+Lemma pad3_hd l : l <> [] -> hd 0 (pad3 l) = hd 0 l.
+Proof. intros Hne. unfold pad3. destruct (last_is_wildcard l); auto. destruct l; [congruence | reflexivity]. Qed.
+
+Lemma pad3_two l : l <> [] -> hd 0 l <> wildcard -> exists n1 n2 rest, pad3 l = n1 :: n2 :: rest.
+Proof.
+  intros Hne Hh. unfold pad3. destruct (last_is_wildcard l) eqn:E.
+  - destruct l as [|x [|y t]]; [congruence| |eauto]. simpl in *. apply Z.eqb_eq in E. congruence.
+  - destruct l as [|x [|y t]]; [congruence | | eauto]; simpl; eauto.
+Qed.
+
+(* ---------- what Parse stores is well formed ---------- *)
+Record inv (nums : list Z) (e : option pep440) : Prop := {
+  inv_two : exists n1 n2 rest, nums = n1 :: n2 :: rest;
+  inv_valid : Forall valid_num nums;
+  inv_hd : hd 0 nums <> wildcard;
+  inv_shape : (3 <= length nums)%nat \/ last_is_wildcard nums = true;
+  inv_pad : pad3 nums = nums;
+  inv_ext : wf_e e
+}.
+
+Lemma parse_pypi_inv s v : parse_pypi s = Ok v -> inv (v_num v) (ext_of v).
+Proof.
+  unfold parse_pypi. destruct (possible_pypi s); [|discriminate]. cbn [negb].
+  destruct (pep_init s) as [[[[[nums3 unc] vpre] ispre] e4]| | |] eqn:Init; cbn [bind]; try discriminate.
+  intros H; inversion H; subst v; clear H. unfold ext_of. cbn [v_num v_ext].
+  unfold pep_init in Init.
+  destruct (negb (chars_ok (trim_space s))); [discriminate|].
+  destruct (parse_epoch (trim_space s)) as [[e0 input1]| | |] eqn:Ep; cbn [bind] in Init; try discriminate.
+  destruct (release (S (length (strip_v input1))) (strip_v input1) true) as [[nums rest]| | |] eqn:Rl;
+    cbn [bind] in Init; try discriminate.
+  destruct nums as [|n0 nums']; [discriminate|].
+  destruct (parse_pre e0 rest) as [[e1 vpre'] rest1] eqn:Gpre.
+  destruct (parse_post e1 rest1) as [e2 rest2] eqn:Gpost.
+  destruct (parse_dev e2 rest2) as [e3 rest3] eqn:Gdev.
+  destruct (parse_local e3 rest3) as [[e4' rest4]| | |] eqn:Gloc; cbn [bind] in Init; try discriminate.
+  destruct rest4; [|discriminate]. inversion Init; subst. clear Init.
+  destruct (release_valid _ _ _ _ _ Rl) as [V Hf]. specialize (Hf eq_refl). cbn iota in Hf.
+  split.
+  - apply pad3_two; [discriminate | exact Hf].
+  - apply pad3_valid; auto.
+  - rewrite pad3_hd by discriminate. exact Hf.
+  - apply pad3_shape. discriminate.
+  - apply pad3_idem. discriminate.
+  - eapply parse_local_wf; [|eauto]. eapply parse_dev_wf; [|eauto]. eapply parse_post_wf; [|eauto].
+    eapply parse_pre_wf; [|eauto]. eapply parse_epoch_wf; eauto.
+Qed.
+
+(* ---------- Canon is a rendering ---------- *)
+Definition pre_of (x : pep440) : option (bytes * Z) :=
+  match p_pre x with [] => None | w => Some (w, p_prenum x) end.
+Definition post_of (x : pep440) : option Z := if p_post x then Some (p_postnum x) else None.
+Definition dev_of (x : pep440) : option Z := if p_dev x then Some (p_devnum x) else None.
+Definition loc_of (x : pep440) : option bytes := match p_local x with [] => None | l => Some l end.
+
+Lemma canon_render nums e : print_nums nums = pn nums ->
+  pep_canon nums e =
+  render (p_epoch (make_ext e)) (pn nums) (pre_of (make_ext e)) (post_of (make_ext e)) (dev_of (make_ext e))
+         (loc_of (make_ext e)).
+Proof.
+  intros P. destruct e as [x|].
+  - destruct x as [ep pre pnum post ponum dev dnum loc].
+    unfold pep_canon, render, r_epoch, r_tail, pre_of, post_of, dev_of, loc_of, r_pre, r_post, r_dev, r_local,
+      s_dotpost, s_dotdev.
+    cbn [make_ext p_epoch p_pre p_prenum p_post p_postnum p_dev p_devnum p_local]. rewrite P.
+    destruct (ep =? 0), pre, post, dev, loc;
+      repeat (rewrite <- app_assoc || rewrite app_nil_r || cbn [app]); reflexivity.
+  - cbn [make_ext pep_canon]. rewrite P. unfold render. cbn. rewrite app_nil_r. reflexivity.
+Qed.
+
+Lemma pep_canon_make_ext nums e : pep_canon nums e = pep_canon nums (Some (make_ext e)).
+Proof. destruct e; [reflexivity|]. cbn. rewrite !app_nil_r. reflexivity. Qed.
+
+(* ---------- C10 ---------- *)
+Lemma dom_inv nums e : c10_pypi_dom nums e = true ->
+  wild_only_last nums = true /\ hd 0 nums <> infinity /\
+  0 <= p_prenum (make_ext e) /\ 0 <= p_postnum (make_ext e) /\ 0 <= p_devnum (make_ext e).
+Proof.
+  unfold c10_pypi_dom. intros H.
+  apply andb_true_iff in H. destruct H as [H H5]. apply andb_true_iff in H. destruct H as [H H4].
+  apply andb_true_iff in H. destruct H as [H H3]. apply andb_true_iff in H. destruct H as [H1 H2].
+  apply negb_true_iff in H2. apply Z.eqb_neq in H2. apply Z.leb_le in H3, H4, H5. auto.
+Qed.
+
+Lemma reparse_canon nums e : inv nums e -> c10_pypi_dom nums e = true ->
+  exists v', parse_pypi (pep_canon nums e) = Ok v' /\ v_num v' = nums /\ make_ext (ext_of v') = make_ext e.
+Proof.
+  intros [(n1 & n2 & rest & En) V Hh Sh Pd W] D.
+  destruct (dom_inv nums e D) as (Wl & Hi & Hpre & Hpost & Hdev).
+  assert (Pn : print_nums nums = pn nums) by (apply print_nums_pn; auto; subst; discriminate).
+  rewrite (canon_render nums e Pn).
+  set (x := make_ext e) in *. unfold wf_e in W. fold x in W. destruct W as [We Wp Wq Wd Wlc].
+  assert (Hn1 : 0 <= n1 < infinity).
+  { subst nums. inversion V as [|? ? V1 _]; subst. cbn [hd] in Hh, Hi. destruct V1 as [E|[E|E]]; congruence || auto. }
+  assert (Ok1 : pre_ok (pre_of x)).
+  { unfold pre_of, pre_ok. destruct Wp as [[E _]|[E Hi64]].
+    - rewrite E. exact Logic.I.
+    - destruct (p_pre x) eqn:Ep; [exact Logic.I|]. split; auto. }
+  assert (Ok2 : match post_of x with Some n => 0 <= n | None => True end)
+    by (unfold post_of; destruct (p_post x); auto).
+  assert (Ok3 : match dev_of x with Some n => 0 <= n | None => True end)
+    by (unfold dev_of; destruct (p_dev x); auto).
+  assert (Ok4 : loc_ok (loc_of x)).
+  { unfold loc_of, loc_ok. destruct Wlc as [E|E]; [rewrite E; exact Logic.I|]. destruct (p_local x) eqn:El; auto. }
+  subst nums.
+  destruct (pep_init_render (p_epoch x) n1 n2 rest (pre_of x) (post_of x) (dev_of x) (loc_of x)
+              We Hn1 V Ok1 Ok2 Ok3 Ok4) as [Pos Init].
+  unfold parse_pypi. rewrite Pos. cbn [negb]. rewrite Init. cbn [bind].
+  eexists. split; [reflexivity|]. cbn [v_num]. split; [exact Pd|].
+  unfold ext_of. cbn [v_ext].
+  (* the extension read back is the one printed *)
+  destruct Wq as [Wq0 Wqi], Wd as [Wd0 Wdi].
+  unfold ext_after, pre_of, post_of, dev_of, loc_of.
+  assert (G1 : gv (p_prenum x) = p_prenum x)
+    by (apply gv_small; destruct Wp as [[_ E]|[_ Hi64]]; [rewrite E; unfold two63; lia | unfold int64 in Hi64; lia]).
+  assert (G2 : gv (p_postnum x) = p_postnum x) by (apply gv_small; unfold int64 in Wqi; lia).
+  assert (G3 : gv (p_devnum x) = p_devnum x) by (apply gv_small; unfold int64 in Wdi; lia).
+  assert (M0 : make_ext (if p_epoch x =? 0 then None else Some (set_epoch zero_pep440 (p_epoch x))) =
+               set_epoch zero_pep440 (p_epoch x)).
+  { destruct (Z.eqb_spec (p_epoch x) 0) as [E|E]; [rewrite E|]; reflexivity. }
+  assert (Epre : p_pre x = [] -> p_prenum x = 0)
+    by (intros E; destruct Wp as [[_ E']|[[E'|[E'|E']] _]]; auto; congruence).
+  clearbody x. clear - G1 G2 G3 M0 Epre Wq0 Wd0.
+  destruct x as [ep pre pnum post ponum dev dnum loc].
+  cbn [p_epoch p_pre p_prenum p_post p_postnum p_dev p_devnum p_local] in *.
+  destruct pre as [|w0 w']; [rewrite (Epre eq_refl)|];
+    (destruct post; [|rewrite (Wq0 eq_refl)]);
+    (destruct dev; [|rewrite (Wd0 eq_refl)]);
+    destruct loc; cbn [make_ext]; rewrite ?G1, ?G2, ?G3, ?M0; cbn [make_ext]; rewrite ?M0; reflexivity.
+Qed.
+
+Lemma canon_pypi v e : v_ext v = Pep440Ext e -> Compare.canon true v = pep_canon (v_num v) e.
+Proof. intros E. unfold Compare.canon. rewrite E. reflexivity. Qed.
+
+Lemma pypi_cmp_same_ext n e e' : make_ext e = make_ext e' -> pypi_cmp (n, e) (n, e') = 0.
+Proof.
+  intros E. rewrite pypi_cmp_lex.
+  assert (X : pypi_lex (n, e) (n, e') = pypi_lex (n, e) (n, e)).
+  { unfold pypi_lex, lex, c_epoch, c_nums, c_rank, c_prenum, c_local, c_post, c_dev. cbn [fst snd].
+    change (dflt e') with (make_ext e'). change (dflt e) with (make_ext e). rewrite <- E. reflexivity. }
+  rewrite X. rewrite <- pypi_cmp_lex. apply (cl_refl _ _ pypi_cmp_laws). exact I.
+Qed.
+
+Definition dom_v (v : version) : bool := c10_pypi_dom (v_num v) (ext_of v).
+
+Theorem c10_reparse s v : parse_pypi s = Ok v -> dom_v v = true ->
+  exists v', parse_pypi (Compare.canon true v) = Ok v' /\ vcmp v v' = 0 /\
+             v_num v' = v_num v /\ make_ext (ext_of v') = make_ext (ext_of v).
+Proof.
+  intros P D. destruct (parse_pypi_shape s v P) as (_ & _ & _ & e & Ee).
+  pose proof (parse_pypi_inv s v P) as Inv. unfold dom_v, ext_of in *. rewrite Ee in *.
+  destruct (reparse_canon (v_num v) e Inv D) as (v' & P' & Nn & Ex).
+  exists v'. rewrite (canon_pypi v e Ee). split; auto. split; auto.
+  destruct (parse_pypi_is_pypi _ _ P) as [Pv _], (parse_pypi_is_pypi _ _ P') as [Pv' _].
+  rewrite (vcmp_pypi v v' Pv Pv'). rewrite Nn. unfold ext_of at 1. rewrite Ee.
+  apply pypi_cmp_same_ext. symmetry. exact Ex.
+Qed.
+
+Theorem c10_idem s v v' : parse_pypi s = Ok v -> dom_v v = true ->
+  parse_pypi (Compare.canon true v) = Ok v' -> Compare.canon true v' = Compare.canon true v.
+Proof.
+  intros P D P'. destruct (c10_reparse s v P D) as (w & Pw & _ & Nn & Ex).
+  rewrite P' in Pw. inversion Pw; subst w.
+  destruct (parse_pypi_shape s v P) as (_ & _ & _ & e & Ee).
+  destruct (parse_pypi_shape _ v' P') as (_ & _ & _ & e' & Ee').
+  rewrite (canon_pypi v e Ee), (canon_pypi v' e' Ee'). rewrite Nn.
+  unfold ext_of in Ex. rewrite Ee, Ee' in Ex.
+  rewrite (pep_canon_make_ext _ e), (pep_canon_make_ext _ e'). rewrite Ex. reflexivity.
+Qed.
+
+Theorem c10_inj s1 s2 v1 v2 : parse_pypi s1 = Ok v1 -> parse_pypi s2 = Ok v2 ->
+  dom_v v1 = true -> dom_v v2 = true ->
+  Compare.canon true v1 = Compare.canon true v2 -> vcmp v1 v2 = 0.
+Proof.
+  intros P1 P2 D1 D2 C.
+  destruct (c10_reparse s1 v1 P1 D1) as (w1 & Pw1 & _ & N1 & X1).
+  destruct (c10_reparse s2 v2 P2 D2) as (w2 & Pw2 & _ & N2 & X2).
+  rewrite C in Pw1. rewrite Pw2 in Pw1. inversion Pw1; subst w2.
+  destruct (parse_pypi_is_pypi _ _ P1) as [Q1 _], (parse_pypi_is_pypi _ _ P2) as [Q2 _].
+  rewrite (vcmp_pypi v1 v2 Q1 Q2). rewrite <- N1, <- N2.
+  apply pypi_cmp_same_ext. congruence.
+Qed.
+
+(* the domain contains versions with every kind of attachment, wildcards and infinity *)
+Lemma c10_dom_examples :
+  forallb (fun s => match parse_pypi s with Ok v => dom_v v | _ => false end)
+    [[49;33;50;46;48;114;99;49;46;112;111;115;116;50;46;100;101;118;51;43;97;46;49];   (* 1!2.0rc1.post2.dev3+a.1 *)
+     [49;46;42];                                                                         (* 1.* *)
+     [49;46;226;136;158;97;48]]%N = true.                                                (* 1.<inf>a0 *)
+Proof. vm_compute. reflexivity. Qed.
